@@ -97,3 +97,28 @@ Qed.
 
 Example lift_chain_example : lift_run cra_reduce_fixed [7; 10; 9; 11] [6; 0; 8; 3] = [6; 20; 440; 1070].
 Proof. vm_compute. reflexivity. Qed.
+
+(* ---------------------------------------------------------------- the value of the non-reducing functor *)
+(* ChineseRemainder<Ring,Domain,false> is documented as not reducing: res = A + (e - A) (M^-1 mod D) M.  Its value is
+   pinned down modulo M D: reduced into [0, M D) it IS the canonical lift (the value of the REDUCE = true functor). *)
+Definition Functor_noreduce_value_stmt : Prop :=
+  forall M D A e, 0 <= A < M -> 0 < D -> Z.gcd M D = 1 ->
+  cra_noreduce M D A e = A + (e - A) * (invmod M D * M) /\
+  (cra_noreduce M D A e) mod (M * D) = cra_reduce_fixed M D A e.
+Lemma functor_noreduce_value : Functor_noreduce_value_stmt.
+Proof.
+  intros M D A e HA HD Hg. split.
+  - unfold cra_noreduce, cra_C12. rewrite invmod_mod. ring.
+  - destruct (functor_noreduce_congruent M D A e HD Hg) as [DM DD].
+    destruct (functor_fixed_canonical M D A e HA HD Hg) as (_ & _ & _ & U).
+    set (f := cra_noreduce M D A e) in *.
+    assert (HMD : 0 < M * D) by nia.
+    apply U.
+    + apply Z.mod_pos_bound. exact HMD.
+    + rewrite <- (Zmod_div_mod M (M * D) f ltac:(lia) HMD ltac:(exists D; ring)).
+      rewrite <- (Z.mod_small A M HA). apply mod_eq_divide; [lia|exact DM].
+    + rewrite <- (Zmod_div_mod D (M * D) f HD HMD ltac:(exists M; ring)).
+      apply mod_eq_divide; [exact HD|exact DD].
+Qed.
+Example functor_noreduce_example : cra_noreduce 3 5 2 1 = -4 /\ (-4) mod 15 = cra_reduce_fixed 3 5 2 1.
+Proof. split; vm_compute; reflexivity. Qed.
